@@ -54,7 +54,7 @@ def run(ck):
     ck.verdict("<Timer as EventSource>::unregister" not in writers and "<Timer as EventSource>::reregister" not in writers, "4", "T7-who-may-write", "<Timer as EventSource>::unregister", "deadline-survives-disable", "unregister does not touch the deadline (writers: %s)" % sorted(writers), "Timer::unregister/reregister overwrite the deadline: a disabled timer loses its expiry", site=t.where())
     tr = ck.body("4", "<Timer as EventSource>::register")
     ins = T.calls(tr, name=("insert", "insert_reuse"), path="TimerWheel")
-    ck.verdict(bool(ins) and all(T.path_has(tr, c.args[1] if c.name == "insert" else c.args[2], ".deadline") for c in ins), "4", "T6-provenance", tr, "arms-from-self.deadline", "register arms the wheel with the timer's own deadline", "Timer::register does not arm from self.deadline", site=tr.where())
+    ck.verdict(bool(ins) and all(T.path_has(tr, T.arg_by_type(tr, c, "std::time::Instant", 1 if c.name == "insert" else 2), ".deadline") for c in ins), "4", "T6-provenance", tr, "arms-from-self.deadline", "register arms the wheel with the timer's own deadline", "Timer::register does not arm from self.deadline", site=tr.where())
     en = ck.body("4", "LoopHandle::enable")
     tf = T.calls(en, name="new", path="TokenFactory::new")
     gets = T.calls(en, name=("get", "get_mut"), path="SourceList")
